@@ -52,6 +52,13 @@ def opF32OfInt : List V → Option V
       some (ofList ofInt (is.map f32OfInt))
   | _ => none
 
+/-- `f64ofint [int ...]` → the float64 value of each integer (the cast of qvalues.py:107) -/
+def opF64OfInt : List V → Option V
+  | [xs] => do
+      let is ← toList? toInt? xs
+      some (ofList ofInt (is.map f64OfInt))
+  | _ => none
+
 end Mk.Ops.QvaluesKey
 
 namespace Mk.Ops
@@ -59,6 +66,6 @@ open Mk V
 
 def qvaluesKeyOps : List (String × (List V → Option V)) :=
   [("tdcentry", QvaluesKey.opTdcEntry), ("labelsentry", QvaluesKey.opLabelsEntry),
-   ("f32ofint", QvaluesKey.opF32OfInt)]
+   ("f32ofint", QvaluesKey.opF32OfInt), ("f64ofint", QvaluesKey.opF64OfInt)]
 
 end Mk.Ops
